@@ -79,6 +79,19 @@ Theorem C04_written_file_query : forall two_pass fp o sizes autosql input f,
 Proof. exact written_file_query. Qed.
 Print Assumptions C04_written_file_query.
 
+(* Consequence for callers: on a written file, a query inside a wider one ([s',e'] contains [s,e]) returns
+   exactly what filtering the wider answer again by the reader's own overlap test returns - same entries,
+   same order - so narrowing client-side and asking again are interchangeable (Proofs/BedNarrow). *)
+From BT Require Proofs.BedNarrow.
+Theorem C04_written_file_narrow : forall two_pass fp o sizes autosql input f,
+  bb_write_either two_pass fp o sizes autosql input = Ok f -> file_hyps o sizes input f ->
+  exists i, read_info f = Ok i /\ forall infl c es s e s' e', In (c, es) (bruns input) ->
+    s' <= s -> e <= e' ->
+    exists wide, bb_interval infl f i c s' e' = Ok wide
+      /\ bb_interval infl f i c s e = Ok (filter (bkeep s e) wide).
+Proof. exact Proofs.BedNarrow.written_file_narrow. Qed.
+Print Assumptions C04_written_file_narrow.
+
 (* the property's own wording on the file *)
 Theorem C04_file_no_miss_no_disjoint : forall (sweep : list bchrom -> summary)
     (zoom_part : list bchrom -> summary -> N -> N -> res (list N * list zoom_header)),
